@@ -324,3 +324,31 @@ package comp
 //@   loop 0: invariant forall k K :: visited(k) && k in m ==> (exists i :: validSlot(r, k, i) && m[k] == r.values[k][i] && predicate(m[k]))
 //@   loop 1: invariant -1 <= i && i <= v && !found && (forall j :: i < j && j <= v ==> !predicate(r.values[k][j]))
 //@   loop 2: invariant v <= i && i <= r.length - 1 && (forall j :: i < j && j < r.length ==> !predicate(r.values[k][j]))
+
+// ---------------------------------------------------------------- Sem (C07, C06 structural clause)
+// Per-line reader/writer counters never go negative when RUnlock / Unlock are
+// called only while held.
+
+//@ func (*Sem).RLock
+//@   requires s.read < 4611686018427387904
+//@   ensures result == (old(s.write) <= 0)
+//@   ensures result ==> s.read == old(s.read) + 1
+//@   ensures !result ==> s.read == old(s.read)
+//@   assigns s.read
+
+//@ func (*Sem).RUnlock
+//@   requires s.read > 0
+//@   ensures s.read == old(s.read) - 1 && s.read >= 0
+//@   assigns s.read
+
+//@ func (*Sem).Lock
+//@   requires s.write < 4611686018427387904
+//@   ensures result == !(old(s.write) > 0 || old(s.read) > 0)
+//@   ensures result ==> s.write == old(s.write) + 1
+//@   ensures !result ==> s.write == old(s.write)
+//@   assigns s.write
+
+//@ func (*Sem).Unlock
+//@   requires s.write > 0
+//@   ensures s.write == old(s.write) - 1 && s.write >= 0
+//@   assigns s.write
